@@ -441,7 +441,7 @@ func runCheck(o CheckOpts) (code int) {
 			if ok {
 				violations++
 				ob := &Obligation{Name: r.Name + "/bounded-crosscheck", Func: r.Name, Kind: "bounded", Label: "bounded-crosscheck"}
-				rp := writeReplay(o, ob.Name, "the function's scenario list (oracle from the property text) fails on this tree although every deductive obligation was discharged: the contract or an assumption is wrong\n"+out, ob)
+				rp := writeReplay(o, ob.Name, "the function's scenario list (oracle from the property text) fails on this tree although every deductive obligation was discharged: the contract or an assumption is wrong\n"+out, nil)
 				lines = append(lines, fmt.Sprintf("VIOLATION property=%s replay=%s obligation=%s reason=%q", o.Prop, rp, ob.Name, "bounded scenario list fails on the real code"))
 			}
 		}
